@@ -1067,7 +1067,13 @@ func (c *Context) Exp(d, x *Decimal) (Condition, error) {
 		if x.Sign() < 0 {
 			res = res.negateOverflowFlags()
 			res |= Clamped
-			d.SetFinite(0, c.etiny())
+			// The zero carries the smallest exponent the context allows,
+			// within what the package itself can represent.
+			etiny := c.etiny()
+			if etiny < MinExponent {
+				etiny = MinExponent
+			}
+			d.SetFinite(0, etiny)
 		} else {
 			d.Set(decimalInfinity)
 		}
